@@ -106,7 +106,7 @@ def main():
       "setup_cmd": "sh ./setup.sh",
       "hooks": {
         "guard": "verif",
-        "enable": "no hook is committed to /repo: every check copies /repo's working tree to a scratch directory, rewrites call sites there (syscalls -> simulated kernel, sync/atomic -> yielding atomics, goroutine spawns, map ranges) with cmd/vinstr, adds export files guarded by the build tag `verif`, and builds with -tags verif; the buffer engine imports /repo unmodified",
+        "enable": "no hook is committed to /repo: every check copies /repo's working tree to a scratch directory, rewrites call sites there (syscalls -> simulated kernel, sync/atomic -> yielding atomics, goroutine spawns, map ranges) with cmd/vinstr, adds export files guarded by the build tag `verif`, and builds with -tags verif; the buffer engine imports /repo unmodified; the +race variants of C05 additionally build with -race and a build overlay of two files of the toolchain's package runtime (copies in the scratch directory, nothing is written to the toolchain or to /repo)",
         "baseline_off_cmd": BASELINE_CMD,
         "source_commits": [],
         "add_only": True,
